@@ -81,7 +81,16 @@ from concurrent.futures import ThreadPoolExecutor  # noqa: E402
 
 KEY = hashlib.sha1(REPO.encode()).hexdigest()[:12]
 ROOT = os.path.join(VERIF, "build", "c20", KEY)
-PKG = os.path.join(ROOT, "pkg")
+# two builds of the package: "jit" = _common as /repo/_build configures it (every FieldVector class generated just in
+# time), "pre" = _common with DUNE_ENABLE_PYTHONMODULE_PRECOMPILE (python/dune/common/registerfvector.cc: the classes
+# FieldVector_double_0 ... FieldVector_double_14 precompiled into _common).  One interpreter can hold only one of them;
+# op lines of the other variant are handed to a child process (see Delegate).
+VARIANT = "jit"
+if "--variant" in sys.argv[1:-1]:
+    VARIANT = sys.argv[sys.argv.index("--variant") + 1]
+if VARIANT not in ("jit", "pre"):
+    raise SystemExit("c20_py.py: unknown --variant " + VARIANT)
+PKG = os.path.join(ROOT, "pkg" if VARIANT == "jit" else "pkg_pre")
 GEN = os.path.join(PKG, "dune", "generated")
 OBJ = os.path.join(ROOT, "obj")
 os.environ["DUNE_PY_DIR"] = os.path.join(ROOT, "dune-py-unused")   # never /repo/_build/dune-env/.cache
@@ -229,7 +238,24 @@ def stage_a():
         list(ex.map(lambda j: build_artefact(*j), jobs))
     jobs = []
     c_so = os.path.join(PKG, "dune", "common", "_common.so")
-    jobs.append((c_so, so_cmd(os.path.join(pd, "common", "_common.cc"), c_so, objs), tuple(objs), "_common"))
+    if VARIANT == "pre":
+        # as python/dune/common/CMakeLists.txt does with DUNE_ENABLE_PYTHONMODULE_PRECOMPILE: registerfvector.cc once per
+        # FV_NUM = 0..4 (three sizes each), linked into _common
+        pre_objs = []
+        pjobs = []
+        for k in range(5):
+            o = os.path.join(OBJ, "registerfvector_%d.o" % k)
+            cmd = [CXX] + BASEFLAGS + ["-DFV_NUM=%d" % k, "-MD", "-MF", o + ".d", "-c",
+                                       os.path.join(pd, "common", "registerfvector.cc"), "-o", o]
+            pjobs.append((o, cmd, (), "registerfvector_%d" % k))
+            pre_objs.append(o)
+        with ThreadPoolExecutor(max_workers=int(os.environ.get("VERIF_C20_JOBS", "6"))) as ex:
+            list(ex.map(lambda j: build_artefact(*j), pjobs))
+        cmd = ([CXX] + BASEFLAGS + ["-DDUNE_ENABLE_PYTHONMODULE_PRECOMPILE", "-MD", "-MF", c_so + ".d", "-shared",
+                                    os.path.join(pd, "common", "_common.cc")] + pre_objs + list(objs) + ["-o", c_so])
+        jobs.append((c_so, cmd, tuple(pre_objs) + tuple(objs), "_common(precompiled)"))
+    else:
+        jobs.append((c_so, so_cmd(os.path.join(pd, "common", "_common.cc"), c_so, objs), tuple(objs), "_common"))
     t_so = os.path.join(PKG, "dune", "typeregistry", "_typeregistry.so")
     jobs.append((t_so, so_cmd(os.path.join(pd, "typeregistry", "_typeregistry.cc"), t_so, objs), tuple(objs),
                  "_typeregistry"))
@@ -281,8 +307,10 @@ class DirectBuilder:
 
 
 BUILDER = DirectBuilder()
-FV_SIZES_ALL = [1, 2, 3, 4, 5, 6, 9]      # every size is built (JIT) in both tiers; Driver/C20.lean knows the same list
-FV_SIZES = [1, 2, 3, 4, 6]                # sizes the quick generator draws from; thorough draws from all
+FV_SIZES_JIT = [1, 2, 3, 4, 5, 6, 9]      # every size is built (JIT) in both tiers; Model/C20.lean (fvSizes) knows the same list
+FV_SIZES_PRE = list(range(15))            # the precompiled classes FieldVector_double_0 .. 14 (fvSizesPre in the model)
+FV_SIZES_ALL = FV_SIZES_JIT if VARIANT == "jit" else FV_SIZES_PRE
+FV_SIZES = [1, 2, 3, 4, 6] if VARIANT == "jit" else [0, 1, 2, 3, 4, 5, 7, 8, 12, 14]   # what the quick generator draws from
 TUP_SHAPES = [("d,F2,d,F3", "val"), ("d,F2,d,F3", "ref"), ("F3,F2", "val"), ("i,d", "val"), ("F2,i,F2", "ref")]
 
 NPV_CODE = r"""
@@ -521,10 +549,43 @@ def reg(tok, letter, count):
     return k
 
 
+def line_variant(head):
+    """which build of the package an op line (by the first token of its header) is executed with"""
+    return "pre" if head in ("pfv", "ptup") else "jit"
+
+
+class Delegate:
+    """a child interpreter holding the other build of the package: lines are piped to it one by one"""
+
+    def __init__(self, variant):
+        cmd = [sys.executable, "-S", "-E", os.path.abspath(__file__), "--serve", "1", "--variant", variant]
+        self.p = subprocess.Popen(cmd, stdin=subprocess.PIPE, stdout=subprocess.PIPE, text=True, bufsize=1)
+
+    def execute(self, line):
+        try:
+            self.p.stdin.write(line.replace("\n", " ") + "\n")
+            self.p.stdin.flush()
+            ans = self.p.stdout.readline()
+        except (BrokenPipeError, OSError):
+            ans = ""
+        if not ans.endswith("\n") or "\x1f" not in ans:
+            # the child died on this line (or could not build): die as well, the line is the last one in BASE.ops
+            print("C20: the %s-variant child process failed on: %s\n%s" % (line_variant(line.split(" ")[0]), line, ans))
+            sys.stdout.flush()
+            os._exit(3)
+        impl, orc = ans[:-1].split("\x1f", 1)
+        return impl, orc
+
+
+DELEGATES = {}
+
+
 class Exec:
     def __init__(self, header):
         hs = header.split()
-        self.kind = hs[0]
+        if not hs or line_variant(hs[0]) != VARIANT:
+            raise ValueError("header")
+        self.kind = {"pfv": "fv", "ptup": "tup"}.get(hs[0], hs[0])
         np = STATE.np
         if self.kind in ("fv", "dyn"):
             self.n = int(hs[1])
@@ -1984,6 +2045,11 @@ def execute(line):
         if " : " not in line:
             raise ValueError("no header")
         header, rest = line.split(" : ", 1)
+        lv = line_variant(header.strip().split(" ")[0])
+        if lv != VARIANT:
+            if lv not in DELEGATES:
+                DELEGATES[lv] = Delegate(lv)
+            return DELEGATES[lv].execute(line)
         ex = Exec(header.strip())
         segs = rest.split(";")
         obs_i, obs_e, bad = [], [], None
@@ -2096,7 +2162,8 @@ def gen_scalar(r):
 
 
 def gen_program(r, idx, tier):
-    kind = r.weighted([("fv", 6), ("dyn", 2), ("tup", 2)])
+    kind = r.weighted([("fv", 6), ("dyn", 2), ("tup", 2)] if VARIANT == "jit" else [("fv", 7), ("tup", 2)])
+    pre = "p" if VARIANT == "pre" else ""
     nseg = r.range(3, 14)
     if kind == "tup":
         shape, ref = r.pick(TUP_SHAPES)
@@ -2134,12 +2201,12 @@ def gen_program(r, idx, tier):
                 segs.append("%s %s %d %d %d" % (op, t, i, gen_index(r, w), gen_val(r)))
             else:
                 segs.append("%s %s %s" % (op, t, u))
-        stat("kind_tup_" + shape + "_" + ref)
-        return "tup %s %s : %s" % (shape, ref, ";".join(segs))
+        stat("kind_%stup_%s_%s" % (pre, shape, ref))
+        return "%stup %s %s : %s" % (pre, shape, ref, ";".join(segs))
 
     n = (r.pick(FV_SIZES_ALL if tier == "thorough" else FV_SIZES) if kind == "fv"
          else r.weighted([(3, 4), (1, 1), (2, 2), (5, 2), (0, 1)]))
-    stat("kind_%s_n%d" % (kind, n))
+    stat("kind_%s%s_n%d" % (pre if kind == "fv" else "", kind, n))
     ctor_kinds = (["list", "tuple", "args", "np", "nps2", "nps3", "npsm1", "npsm2", "buf", "zero", "fac",
                    "list", "tuple", "args", "np", "nps2", "nps3", "npsm1", "npsm2", "buf", "zero", "fac",
                    "ilist", "ituple", "iargs", "iargs", "npi", "npf32", "np2d"]
@@ -2272,12 +2339,29 @@ def gen_program(r, idx, tier):
         elif op == "nnew":
             b = ar()
             segs.append("nnew %s %s %d" % (ar(True), b, gen_scalar(r)))
-    return "%s %d : %s" % (kind, n, ";".join(segs))
+    return "%s%s %d : %s" % (pre if kind == "fv" else "", kind, n, ";".join(segs))
 
 
 # =========================================================================================================
 # 6. main
 # =========================================================================================================
+
+def serve():
+    """child mode of Delegate: op lines on stdin, `impl <US> oracle` lines on stdout; everything else goes to stderr"""
+    real_out = os.fdopen(os.dup(1), "w")
+    os.dup2(2, 1)
+    try:
+        prepare()
+    except Exception as ex:
+        real_out.write("C20-BUILD-FAILED (tree %s, variant %s) %s\n" % (REPO, VARIANT, str(ex).replace("\n", " ")[:3000]))
+        real_out.flush()
+        return 3
+    for line in sys.stdin:
+        impl, orc = execute(line.rstrip("\n"))
+        real_out.write(impl.replace("\n", " ").replace("\x1f", " ") + "\x1f" + orc.replace("\n", " ") + "\n")
+        real_out.flush()
+    return 0
+
 
 def main(argv):
     a = {"seed": "1", "cases": "1000", "tier": "quick", "replay": "", "out": os.path.join(VERIF, "build", "c20_out")}
@@ -2289,6 +2373,8 @@ def main(argv):
             i += 2
         else:
             i += 1
+    if a.get("serve"):
+        return serve()
     out = a["out"]
     # tuplevector.hh reports rejected assignments on std::cerr; keep that chatter out of the crash log
     try:
